@@ -31,6 +31,7 @@ package rsec16
 
 //@ func applyMatrixSlice
 //@   props C12 C07
+//@   inst-counters
 //@   requires matOK(m) && len(in) >= 1 && len(in) <= m.columns
 //@   requires 0 <= outStart && outEnd <= len(out) && outEnd <= m.rows
 //@   requires 0 <= dataStart && dataStart <= dataEnd && (dataEnd - dataStart) % 2 == 0
@@ -46,6 +47,7 @@ package rsec16
 
 //@ func applyMatrixSingle
 //@   props C12 C07
+//@   inst-counters
 //@   requires applyOK(m, in, out)
 //@   panics len(in[0]) != len(out[0])
 //@   modifies each r 0 len(out) : out[r][0:len(in[0])]
@@ -67,6 +69,7 @@ package rsec16
 
 //@ func applyMatrixParallelData$1
 //@   props C12 C07
+//@   inst-counters
 //@   requires applyOK(m, in, out) && dataLength == len(in[0])
 //@   requires i >= 0 && perGoroutineDataLength >= 16 && perGoroutineDataLength % 16 == 0 && mathint(i) * mathint(perGoroutineDataLength) < mathint(dataLength)
 //@   footprint mathint(i) * mathint(perGoroutineDataLength) ; min(mathint(i) * mathint(perGoroutineDataLength) + mathint(perGoroutineDataLength), mathint(dataLength))
@@ -76,6 +79,7 @@ package rsec16
 
 //@ func applyMatrixParallelData
 //@   props C12 C07
+//@   inst-counters
 //@   requires applyOK(m, in, out)
 //@   panics len(in[0]) != len(out[0]) || numGoroutines < 1
 //@   forkjoin 0 ; numGoroutines ; dataLength ; x / perGoroutineDataLength
@@ -87,6 +91,7 @@ package rsec16
 
 //@ func applyMatrixParallelOut$1
 //@   props C12 C07
+//@   inst-counters
 //@   requires applyOK(m, in, out) && outLength == len(out)
 //@   requires i >= 0 && perGoroutineOutLength >= 1 && mathint(i) * mathint(perGoroutineOutLength) < mathint(outLength)
 //@   footprint mathint(i) * mathint(perGoroutineOutLength) ; min(mathint(i) * mathint(perGoroutineOutLength) + mathint(perGoroutineOutLength), mathint(outLength))
@@ -95,6 +100,7 @@ package rsec16
 
 //@ func applyMatrixParallelOut
 //@   props C12 C07
+//@   inst-counters
 //@   requires applyOK(m, in, out)
 //@   panics len(in[0]) != len(out[0]) || numGoroutines < 1
 //@   forkjoin 0 ; numGoroutines ; outLength ; x / perGoroutineOutLength
@@ -114,12 +120,14 @@ package rsec16
 
 //@ func (Coder).applyMatrix
 //@   props C07 C12
+//@   inst-counters
 //@   requires applyOK(m, in, out) && c.numGoroutines >= 1
 //@   panics len(in[0]) != len(out[0])
 //@   modifies each r 0 len(out) : out[r][0:len(in[0])]
 
 //@ func (Coder).GenerateParity
 //@   props C07 C12
+//@   inst-counters
 //@   requires coderOK(c) && len(data) == c.dataShards && len(data[0]) % 2 == 0 && rowsLen(data, len(data[0]))
 //@   modifies nothing
 //@   ensures len(result) == c.parityShards && rowsLen(result, len(data[0]))
@@ -157,6 +165,7 @@ package rsec16
 //@ func (Coder).ReconstructData
 //@   props C07 C12
 //@   logical n
+//@   inst-counters
 //@   inst rangeindex + 1
 //@   inst rangeindex
 //@   inst i
